@@ -688,7 +688,14 @@ func (c *cutter) doHuffman(isFirstBlock bool, lLengths []uint32, dLengths []uint
 		return errInvalidNoEndOfBlock
 	}
 	if _, _, err := c.dHuff.construct(dLengths); err != nil {
-		return err
+		// RFC 1951 section 3.2.7: "One distance code of zero bits means that
+		// there are no distance codes used at all (the data is all literals)".
+		if (len(dLengths) != 1) || (dLengths[0] != 0) {
+			return err
+		}
+		// construct has zeroed c.dHuff.counts; clear the stale look-up table
+		// too, so that any distance symbol is rejected as errInvalidBadSymbol.
+		c.dHuff.constructLookUpTable()
 	}
 
 	for c.bits.nBits >= 8 {
